@@ -190,7 +190,7 @@ func theAxes(thorough bool) axes {
 		a.cbs = append(a.cbs, "cb", "/a//cb", "/c%62")
 		a.apiBases = []string{unset, "", "/", "/base", "base", "/base/"}
 		a.uiBases = []string{unset, "/other", "other"}
-		a.uiPaths = []string{unset, "ui", "/ui/x", "/"}
+		a.uiPaths = []string{unset, "/ui/x", "/"}
 		a.apiSpecURLs = append(a.apiSpecURLs, "https://h/x/y/openapi.json", "//h/x/spec.json", "/x/spec.json?v=1", "/swagger.json", "http://h:8080/openapi.json?v=1#frag", "/x/my%20spec.json",
 			"/x//y/../spec.json", "/op", "/base/docs", "https://h", "", "/x/a%2Fb.json", "../spec.json")
 		a.methods = []string{"GET", "HEAD", "POST", "OPTIONS"}
